@@ -15,22 +15,22 @@ HISTORIES = {
  "C02": "Also: getters in a generated order, then get_full_prefactors() and in-place edits of every handed-out object, then all getters again; unsorted radii, more than 500 position cells, factors 1e-4..1e3.",
  "C03": "Also: the caller edits the handed-out matrices in place and asks the same object again; a second object asked in another getter order.",
  "C04": "Also: in-place edits of the handed-out matrices before a second round of getters; probes at randomQ 84, 101, 150 and one beyond the bound (280).",
- "C05": "Also: generated getter order, in-place edits of the results, second pass; the Cartesian variant of the same grids queried first in the same process; 7..64 shells, nearly regular and thin shells.",
+ "C05": "Also: the 2-argument range form; generated getter order, in-place edits of the results, second pass; the Cartesian variant of the same grids queried first in the same process; 7..64 shells, nearly regular and thin shells.",
  "C06": "Also: per-grid getter order, in-place edits, second pass; the spherical variant of the same grids queried first; thin shells and unsorted radii with a conditioning-aware tolerance.",
  "C07": "Also: N up to 2562 for every direction algorithm, sessions of several grids of one algorithm in one process (sizes down and up), the grid held by a FullGrid after use, a prefix sweep over every N.",
  "C08": "Also: getters optionally followed by an in-place edit of the handed-out object, keyword variants (only_orientation / only_position) as getters, full-grid specifications in the pool.",
  "C09": "Also: the full array and the position array edited in place before the second call; 13-decimal radii, more than 256 / 4096 rows.",
- "C10": "Also: one-molecule universes edited in place, PtWriter call histories (write_structure before the first access), integer / float32 arrays, small-angle rotations.",
+ "C10": "Also: the grid array reordered in place between construction and first use; one-molecule universes edited in place, PtWriter call histories (write_structure before the first access), integer / float32 arrays, small-angle rotations.",
  "C11": "Also: chain molecules with the backbone on the long axis (found known finding F17), more than 256 rotations, a 5347-frame trajectory.",
- "C12": "Also: the same object asked for the other mode first and its result edited in place, unsorted / repeated lag lists in the all-tau helper, 65 535..3e6 cells, more than 10 000 frames.",
- "C13": "Also: several cut_and_merge calls with different limits on one SQRA object, equivalent argument forms, matrix magnitudes 1e-13..1e7, up to 300 cells.",
+ "C12": "Also: the mode flag as Python bool / numpy bool / integer; the same object asked for the other mode first and its result edited in place, unsorted / repeated lag lists in the all-tau helper, 65 535..3e6 cells, more than 10 000 frames.",
+ "C13": "Also: cut_and_merge on chains of up to 70 001 cells against the sparse lumping; several cut_and_merge calls with different limits on one SQRA object, equivalent argument forms, matrix magnitudes 1e-13..1e7, up to 300 cells.",
  "C14": "Also: factors 5e-4..60 (cell volumes below 1e-8), energy ramps over 8..14 shells, a second rate matrix from the same loaded objects, varying save order; stationarity judged column-wise (underflow-safe).",
  "C15": "Also: volumes asked after the neighbour getters on a second object, after a caller scaled a returned array, and from the rotation grid inside a FullGrid after get_total_volumes(); same-N grids of both algorithms in one process.",
  "C16": "Also: negative members down to 5e-324 and linspace/range forms running below zero must be rejected.",
  "C17": "Also: the factory is asked for fulldiv with every N in 2..700 (3000), and names are constructed in sessions (sizes down and up in one process).",
  "C18": "Also: an observe rule calling the other read-only getters between divisions, N passed as numpy integers, cross-object sessions (hypercube cells, cube, icosahedron in one fresh process).",
- "C19": "Also: adjacency and distances requested with each optional selector (only_orientation / only_position).",
- "C20": "Also: a second grid written to the same paths while the first results are held; the energy frame and column edited in place before a second read from the same reader.",
+ "C19": "Also: the position-mode flag as Python bool / numpy bool / integer; adjacency and distances requested with each optional selector (only_orientation / only_position).",
+ "C20": "Also: legends differing only in case or surrounding blanks; a second grid written to the same paths while the first results are held; the energy frame and column edited in place before a second read from the same reader.",
 }
 for _pid, _t in HISTORIES.items():
     if _pid in CHECKS:
